@@ -194,3 +194,58 @@ def ownership_scan():
                 'websocket:WebSocket.on_disconnect', 'session:WebsocketSession.write'}
     extra = sorted(flag_writers - expected)
     yield ('closing/closed-assigned-only-in-monitored-functions', not extra, None if not extra else dict(unmonitored=extra), 'AST scan')
+
+
+@ground('package.state-partition-scan', serves=['C17'])
+def state_partition_scan():
+    """whole-package AST scan (every run) for C17's frame condition: (a) every attribute assigned
+    anywhere in the package on a WebSocket / State / WebsocketSession / WebsocketStream / parser /
+    validator / Deflate object is in the field inventory (contracts/world.py FIELDS); (b) outside
+    __init__ and add_header, WebSocket methods assign no configuration field - only `state`;
+    (c) no class-level mutable default is shared between instances; (d) module-level mutable state
+    is limited to the memoised Opcode name table."""
+    import ast
+    import os
+    from . import source
+    sys_path_fix = None
+    from contracts.world import FIELDS, CONFIG_FIELDS
+    root = os.path.join(source.ROOT, 'lomond')
+    classes = {'WebSocket': 'websocket.py', 'State': 'websocket.py', 'WebsocketSession': 'session.py', 'WebsocketStream': 'stream.py',
+               'FrameParser': 'frame_parser.py', 'ClientFrameParser': 'frame_parser.py', 'Parser': 'parser.py', 'Deflate': 'compression.py'}
+    inv = {'WebSocket': set(FIELDS['WebSocket']), 'State': set(FIELDS['State']), 'WebsocketSession': set(FIELDS['WebsocketSession']),
+           'WebsocketStream': set(FIELDS['WebsocketStream']), 'FrameParser': set(FIELDS['ClientFrameParser']), 'ClientFrameParser': set(FIELDS['ClientFrameParser']),
+           'Parser': set(FIELDS['ClientFrameParser']), 'Deflate': set(FIELDS['Deflate'])}
+    unknown, config_writes, class_mutables, module_mutables = [], [], [], []
+    for fn in sorted(os.listdir(root)):
+        if not fn.endswith('.py'):
+            continue
+        tree = ast.parse(open(os.path.join(root, fn)).read())
+        for node in ast.walk(tree):
+            if isinstance(node, ast.ClassDef):
+                for item in node.body:
+                    if node.name in inv and isinstance(item, ast.Assign) and isinstance(item.value, (ast.List, ast.Dict, ast.Set)) and not any(
+                            isinstance(t, ast.Name) and t.id == '__slots__' for t in item.targets):
+                        class_mutables.append('%s:%s.%s' % (fn, node.name, ast.unparse(item.targets[0])))
+                    if isinstance(item, ast.FunctionDef):
+                        for sub in ast.walk(item):
+                            targets = []
+                            if isinstance(sub, ast.Assign):
+                                targets = sub.targets
+                            elif isinstance(sub, ast.AugAssign):
+                                targets = [sub.target]
+                            for t in targets:
+                                if isinstance(t, ast.Attribute) and isinstance(t.value, ast.Name) and t.value.id == 'self' and node.name in inv:
+                                    if t.attr not in inv[node.name]:
+                                        unknown.append('%s:%s.%s assigns self.%s' % (fn, node.name, item.name, t.attr))
+                                    if node.name == 'WebSocket' and item.name not in ('__init__', 'add_header') and t.attr in CONFIG_FIELDS:
+                                        config_writes.append('%s:WebSocket.%s assigns self.%s' % (fn, item.name, t.attr))
+        for item in tree.body:
+            if isinstance(item, ast.Assign) and isinstance(item.value, (ast.List, ast.Dict)) and fn not in ('mask.py',):
+                module_mutables.append('%s:%s' % (fn, ast.unparse(item.targets[0])))
+    yield ('every-assigned-attribute-is-in-the-field-inventory', not unknown, None if not unknown else dict(sites=unknown), 'AST scan')
+    yield ('configuration-fields-written-only-by-__init__/add_header', not config_writes, None if not config_writes else dict(sites=config_writes), 'AST scan')
+    yield ('no-class-level-mutable-defaults', not class_mutables, None if not class_mutables else dict(sites=class_mutables), 'AST scan')
+    yield ('no-module-level-mutable-connection-state', not module_mutables, None if not module_mutables else dict(sites=module_mutables), 'AST scan')
+    ws = importlib.import_module('lomond.websocket')
+    ok = ws.WebSocket.__iter__ is ws.WebSocket.connect
+    yield ('iteration-is-connect', ok, None, 'inspection')
